@@ -32,6 +32,7 @@ pub enum FK {
     Oversize,
     UnknownField,
     TypeConfusion,
+    WrongDocument,
     ByteFlip,
     // parameters
     ParamDrop,
@@ -66,6 +67,7 @@ impl FK {
             FK::Oversize => "oversize",
             FK::UnknownField => "unknown_field",
             FK::TypeConfusion => "type_confusion",
+            FK::WrongDocument => "wrong_document",
             FK::ByteFlip => "byte_flip",
             FK::ParamDrop => "param_drop",
             FK::ParamDup => "param_dup",
@@ -208,6 +210,7 @@ fn fault_counter(k: FK) -> &'static str {
         FK::Oversize => "fault.oversize_fired",
         FK::UnknownField => "fault.unknown_field_fired",
         FK::TypeConfusion => "fault.type_confusion_fired",
+        FK::WrongDocument => "fault.wrong_document_fired",
         FK::ByteFlip => "fault.byte_flip_fired",
         FK::ParamDrop => "fault.param_drop_fired",
         FK::ParamDup => "fault.param_dup_fired",
@@ -331,6 +334,38 @@ fn apply_forced_delivery(bytes: &[u8], f: &Forced, plan: &mut CallPlan, fired: &
 /// Splices an unknown member into a randomly chosen *object* node (never a
 /// map or a union wrapper) of a JSON document of IR type `ty`.
 pub fn splice_unknown(t: &mut Tape, ty: &Ty, doc: &mut Value, name: &str) -> bool {
+    splice_unknown_with(t, ty, doc, name, None)
+}
+
+/// Stands in for a value that `serde_json::Value` cannot hold; `raw_values` puts the text in.
+pub const RAW_PLACEHOLDER: &str = "@@verif-raw-value@@";
+
+/// Legal JSON values a value tree cannot express: numbers beyond f64 / u64, nesting beyond
+/// serde_json's recursion limit, escapes of lone surrogates. Replaces every placeholder.
+pub fn raw_values(t: &mut Tape, bytes: Vec<u8>) -> (Vec<u8>, Option<String>) {
+    let needle = format!("\"{}\"", RAW_PLACEHOLDER);
+    let text = String::from_utf8(bytes).expect("serde_json output is UTF-8");
+    if !text.contains(&needle) {
+        return (text.into_bytes(), None);
+    }
+    let deep = 129 + t.draw(200) as usize;
+    let raw = match t.draw(10) {
+        0 => "1e999".to_string(),
+        1 => "-1E+999".to_string(),
+        2 => "[0,{\"a\":[1e999]}]".to_string(),
+        3 => format!("{}{}", "[".repeat(deep), "]".repeat(deep)),
+        4 => format!("{}null{}", "{\"a\":".repeat(deep), "}".repeat(deep)),
+        5 => "\"\\ud800\"".to_string(),
+        6 => "{\"\\udc00x\":\"\\ud83d\"}".to_string(),
+        7 => "123456789012345678901234567890123456789".to_string(),
+        8 => "-0.0000000000000000000000000000000000000000000000000000000000000000000000001E-999".to_string(),
+        _ => "[ 1 , \t\r\n{ } ]".to_string(),
+    };
+    let label = if raw.len() > 40 { format!("{}..({} bytes)", &raw[..20], raw.len()) } else { raw.clone() };
+    (text.replace(&needle, &raw).into_bytes(), Some(label))
+}
+
+pub fn splice_unknown_with(t: &mut Tape, ty: &Ty, doc: &mut Value, name: &str, value: Option<Value>) -> bool {
     // collect object-node paths
     fn walk<'a>(ty: &'a Ty, v: &Value, path: &mut Vec<PathEl>, out: &mut Vec<Vec<PathEl>>) {
         let ir = ir();
@@ -403,7 +438,7 @@ pub fn splice_unknown(t: &mut Tape, ty: &Ty, doc: &mut Value, name: &str) -> boo
             PathEl::Key(k) => &mut cur[k.as_str()],
         };
     }
-    let extra = match t.draw(7) {
+    let extra = if let Some(v) = value { v } else { match t.draw(7) {
         0 => Value::Null,
         1 => Value::from(1),
         2 => Value::String("NaN".into()),
@@ -411,12 +446,22 @@ pub fn splice_unknown(t: &mut Tape, ty: &Ty, doc: &mut Value, name: &str) -> boo
         4 => serde_json::json!({"name": "x", "value": 1.5}),
         5 => Value::Bool(true),
         _ => Value::String(String::new()),
-    };
+    } };
     if let Value::Object(m) = cur {
         m.insert(name.to_string(), extra);
         true
     } else {
         false
+    }
+}
+
+/// The name of an injected member: usually short, sometimes long, non-ASCII or in need of escaping.
+pub fn unknown_name(ctx: &Ctx, alpha: &str) -> String {
+    match ctx.draw(6) {
+        0 => format!("extra{}{}", alpha, "é".repeat(10 + ctx.draw(60) as usize)),
+        1 => format!("x{}{}", crate::ir::gen_string(&mut ctx.lock().tape, true, 120), alpha),
+        2 => format!("extra\"{}\\\n", alpha),
+        _ => format!("extra{}", alpha),
     }
 }
 
@@ -500,7 +545,11 @@ fn undecodable(t: &mut Tape, ty: &Ty, alpha: &str) -> Option<String> {
         Ty::Opt(i) | Ty::List(i) | Ty::Set(i) => ir.dealias(i),
         o => o,
     };
-    let with = |s: &str| format!("{}{}", s, alpha);
+    // half of the time the canary's random letters come first: what a parser echoes about the text
+    // (the first offending character, its position) then depends on the canary
+    let tail = alpha.get(2..).unwrap_or(alpha).to_string();
+    let first = t.chance(1, 2);
+    let with = |s: &str| if first { format!("{}{}", tail, s) } else { format!("{}{}", s, alpha) };
     Some(match ty {
         Ty::Prim(Prim::String) | Ty::Prim(Prim::Any) | Ty::Prim(Prim::Binary) => return None,
         Ty::Prim(Prim::Integer) => match t.draw(6) {
@@ -838,7 +887,7 @@ pub fn apply_request_faults(
             // value-bearing damage of a Smile body: spliced / confused on the plain Smile tree
             if want(plan, FK::UnknownField) {
                 if let (Some(ty), Ok(mut v)) = (&body_ty, serde_smile::from_slice::<serde_smile::value::Value>(&bytes)) {
-                    let name = format!("extra{}", &plan.alpha);
+                    let name = unknown_name(ctx, &plan.alpha);
                     if ctx.with_tape(|t| crate::pipe::splice_unknown_smile(t, ty, &mut v, &name)) {
                         bytes = serde_smile::to_vec(&v).unwrap();
                         ctx.count("probe.unknown_field_spliced_smile");
@@ -879,7 +928,7 @@ pub fn apply_request_faults(
         if still_json && want(plan, FK::UnknownField) {
             if let (Some(ty), Ok(mut v)) = (&body_ty, serde_json::from_slice::<Value>(&bytes)) {
                 if serde_json::to_vec(&v).ok().as_deref() == Some(&bytes[..]) {
-                    let name = format!("extra{}", &plan.alpha);
+                    let name = unknown_name(ctx, &plan.alpha);
                     if ctx.with_tape(|t| splice_unknown(t, ty, &mut v, &name)) {
                         bytes = serde_json::to_vec(&v).unwrap();
                         ctx.count("probe.unknown_field_spliced");
@@ -948,6 +997,12 @@ pub fn apply_request_faults(
         }
     }
     let json_now = wire.header("content-type") == Some(JSON_CT);
+    if json_now && !sent.streaming && !fired.iter().any(|f| matches!(f.kind, FK::UnknownField | FK::TypeConfusion)) && want(plan, FK::WrongDocument) {
+        // a different, perfectly well-formed document
+        let d: &[u8] = ctx.with_tape(|t| *t.pick(&[&b"null"[..], b"{}", b"[]", b"0", b"\"x\"", b"true", b"[null]", b"{\"type\":\"x\"}", b"1e999", b" null "]));
+        bytes = d.to_vec();
+        fire(ctx, plan, &mut fired, FK::WrongDocument, String::from_utf8_lossy(d).to_string(), Expect::Judge);
+    }
     if !sent.streaming {
         if want(plan, FK::TrailingGarbage) {
             let g: &[u8] = ctx.with_tape(|t| *t.pick(&[&b" garbage"[..], b"x", b"}", b"]", b",", b"\0", b" 1", b"\"", b"//c"]));
@@ -1068,12 +1123,17 @@ pub fn apply_response_faults(
         if want(plan, FK::UnknownField) {
             if let (Some(ty), Ok(mut v)) = (&ret_ty, serde_json::from_slice::<Value>(&bytes)) {
                 if serde_json::to_vec(&v).ok().as_deref() == Some(&bytes[..]) {
-                    let name = format!("extra{}", &plan.alpha);
-                    if ctx.with_tape(|t| splice_unknown(t, ty, &mut v, &name)) {
-                        bytes = serde_json::to_vec(&v).unwrap();
+                    let name = unknown_name(ctx, &plan.alpha);
+                    let raw = if ctx.chance(1, 3) { Some(Value::String(RAW_PLACEHOLDER.into())) } else { None };
+                    if ctx.with_tape(|t| splice_unknown_with(t, ty, &mut v, &name, raw)) {
+                        let (b, label) = ctx.with_tape(|t| raw_values(t, serde_json::to_vec(&v).unwrap()));
+                        bytes = b;
                         ctx.count("probe.unknown_field_spliced");
-                        // clients ignore unknown fields
-                        fire(ctx, plan, &mut fired, FK::UnknownField, name, Expect::Transparent);
+                        if label.is_some() {
+                            ctx.count("probe.unknown_field_raw_value");
+                        }
+                        // clients ignore unknown fields, whatever they hold
+                        fire(ctx, plan, &mut fired, FK::UnknownField, format!("{} = {}", name, label.unwrap_or_default()), Expect::Transparent);
                     }
                 }
             }
@@ -1099,6 +1159,11 @@ pub fn apply_response_faults(
             bytes.extend_from_slice(b" \n");
             fire(ctx, plan, &mut fired, FK::TrailingWs, "2".into(), Expect::Transparent);
         }
+    }
+    if is_json && !resp.streaming && wire.status != 204 && !fired.iter().any(|f| matches!(f.kind, FK::UnknownField | FK::TypeConfusion)) && want(plan, FK::WrongDocument) {
+        let d: &[u8] = ctx.with_tape(|t| *t.pick(&[&b"null"[..], b"{}", b"[]", b"0", b"\"x\"", b"true", b"[null]", b"{\"type\":\"x\"}", b"1e999", b" null "]));
+        bytes = d.to_vec();
+        fire(ctx, plan, &mut fired, FK::WrongDocument, String::from_utf8_lossy(d).to_string(), Expect::Judge);
     }
     if !resp.streaming && wire.status != 204 {
         if want(plan, FK::TrailingGarbage) {
